@@ -220,7 +220,7 @@ class CFG:
                 m.pred.append(n)
         self._idom = self._dominators()
         for n in self.rpo:
-            if isinstance(n.ast, dict) and n.kind != 'edge':
+            if isinstance(n.ast, dict) and n.kind in ('stmt', 'cond', 'switch', 'return', 'goto'):
                 for x in A.walk(n.ast):
                     self.owner.setdefault(id(x), n)
 
